@@ -189,6 +189,13 @@ fn mutate(rng: &mut Rng, m: &Matrix, lex: &Lexicon) -> Mutated {
             }
             splits_touched = true;
         }
+        9 if rng.chance(1, 3) => {
+            // lengths around the 1-byte / 2-byte length prefix: valid, must compile, load and analyse
+            let f = *rng.pick(&[4usize, 11, 12, 0]);
+            let len = *rng.pick(&[126usize, 127, 128, 129]);
+            rows[r][f] = "あ".repeat(if f == 0 { len / 3 } else { len });
+            what = format!("row {}: field {} has {} characters", r, f, if f == 0 { len / 3 } else { len });
+        }
         9 => {
             // the index key (field 0) stays short here: long keys are the region of known finding D24
             let f = *rng.pick(&[4usize, 5, 11, 12, 0]);
